@@ -120,7 +120,7 @@ def run(ctx):
     for bid, hn, hv, vv, t in pushes_of[builder]:
         pass
     # ---- duplicates: no other reachable code constructs a header with a required name
-    r1d = chk.rule("R1d-no-second-source", "no function outside the builder (CORS functions, controllers, serialisers) constructs a header with one of the six required names", floor=10)
+    r1d = chk.rule("R1d-no-second-source", "no function outside the builder (CORS functions, controllers, serialisers) constructs a header with one of the six required names", floor=1)
     for n in local:
         if n == builder:
             continue
